@@ -50,6 +50,11 @@ CLAIMED = {
         "level": "Decides the structural clauses I1-I5 (validation at every constructor, pass order, duplicate -> error, never a panic on the registration path, path walking); that every item is reachable under every library is not decided.",
         "note": "Partial: clauses I1-I5.",
     },
+    "C17": {
+        "technique": "pairing of every library! registration with its resolved Rust body (fn item types through const blocks) and name/callee agreement; primitive-reachability and element-type agreement for the string views; cross-width uniformity of macro expansions",
+        "level": "Decides that each documented name is bound to the std/inetnum operation of that name (93 registrations) and that each string view counts in its own unit; the values those operations return are trusted, not decided.",
+        "note": "Partial: clauses N1-N3.",
+    },
 }
 _PENDING = "check under construction in this session; not yet claimed"
 NOT_APPLICABLE = {p: _PENDING for p in
